@@ -318,3 +318,184 @@ Lemma heun_alias_differs :
   time_free witness_alias = true /\
   run_impl_preD36 witness_alias 1 2 1 [Q2Qc 1] <> run_spec Heun witness_alias 1 2 1 [Q2Qc 1].
 Proof. split; [reflexivity|]. vm_compute; intro H; discriminate H. Qed.
+
+(* ================================================================================================ vectorized helpers *)
+Open Scope nat_scope.
+Lemma combine_repeat_map {A B C} (a : A) (g : B -> C) : forall l : list B,
+  combine (repeat a (length l)) (map g l) = map (fun x => (a, g x)) l.
+Proof. induction l as [|x l IH]; [reflexivity|]. cbn [length repeat map combine]. now rewrite IH. Qed.
+
+Lemma combine_map_r {A B C} (g : B -> C) : forall (a : list A) (l : list B),
+  combine a (map g l) = map (fun p => (fst p, g (snd p))) (combine a l).
+Proof.
+  induction a as [|x a IH]; intros l; [reflexivity|]. destruct l as [|y l]; [reflexivity|].
+  cbn [map combine fst snd]. now rewrite IH.
+Qed.
+
+Lemma map2_repeat (c : Qc -> Qc -> Qc) xi : forall pre : row,
+  map (fun q => c (fst q) (snd q)) (combine pre (repeat xi (length pre))) = map (fun pj => c pj xi) pre.
+Proof. induction pre as [|p pre IH]; [reflexivity|]. cbn [length repeat combine map fst snd]. now rewrite IH. Qed.
+
+(* wsum over the broadcast operands is the weighted sum of the coupling function over the source units *)
+Theorem coupling_input_eq_spec c W pre post : coupling_input c W pre post = coupling_spec c W pre post.
+Proof.
+  unfold coupling_input, coupling_spec, wsum, mat_map2, broadcast_pre, broadcast_post.
+  rewrite combine_repeat_map, map_map. cbn [fst snd].
+  rewrite (map_ext _ (fun xi => map (fun pj => c pj xi) pre)) by (intros xi; apply map2_repeat).
+  rewrite combine_map_r, map_map. apply map_ext. intros [wrow xi]. cbn [fst snd].
+  unfold dot. now rewrite combine_map_r, map_map.
+Qed.
+
+(* ---------- slice updates: the returned array does not depend on what the dy buffer contained ---------- *)
+Lemma set_range_length buf lo vals : lo + length vals <= length buf -> length (set_range buf lo vals) = length buf.
+Proof. intros H. unfold set_range. rewrite !app_length, firstn_length, skipn_length. lia. Qed.
+
+Lemma skipn_add {A} : forall (l : list A) a b, skipn a (skipn b l) = skipn (b + a) l.
+Proof.
+  induction l as [|x l IH]; intros a b; [now rewrite !skipn_nil|]. destruct b as [|b]; [reflexivity|].
+  cbn [skipn Nat.add]. apply IH.
+Qed.
+
+Lemma apply_updates_form : forall us buf at_, consecutive at_ us -> at_ + total_len us <= length buf ->
+  apply_updates buf us = firstn at_ buf ++ concat (map snd us) ++ skipn (at_ + total_len us) buf.
+Proof.
+  induction us as [|[lo vals] us IH]; intros buf at_ HC HL.
+  - cbn. rewrite Nat.add_0_r. now rewrite firstn_skipn.
+  - change (total_len ((lo, vals) :: us)) with (length vals + total_len us) in *.
+    cbn [apply_updates fold_left map concat snd fst]. destruct HC as [-> HC]. fold (apply_updates (set_range buf at_ vals) us).
+    assert (L1 : length (firstn at_ buf) = at_) by (rewrite firstn_length; lia).
+    rewrite (IH _ (at_ + length vals)); [|exact HC|rewrite set_range_length; lia].
+    unfold set_range.
+    replace (firstn (at_ + length vals) (firstn at_ buf ++ vals ++ skipn (at_ + length vals) buf)) with (firstn at_ buf ++ vals).
+    2:{ rewrite firstn_app, L1. rewrite (firstn_all2 (n := at_ + length vals) (firstn at_ buf)) by lia. f_equal.
+        replace (at_ + length vals - at_) with (length vals) by lia.
+        rewrite firstn_app, firstn_all, Nat.sub_diag. cbn [firstn]. now rewrite app_nil_r. }
+    replace (skipn (at_ + length vals + total_len us) (firstn at_ buf ++ vals ++ skipn (at_ + length vals) buf))
+      with (skipn (at_ + (length vals + total_len us)) buf).
+    2:{ rewrite skipn_app, L1. rewrite (skipn_all2 (firstn at_ buf)) by lia. cbn [app].
+        replace (at_ + length vals + total_len us - at_) with (length vals + total_len us) by lia.
+        rewrite skipn_app. rewrite (skipn_all2 vals) by lia. cbn [app].
+        replace (length vals + total_len us - length vals) with (total_len us) by lia.
+        rewrite skipn_add. f_equal. lia. }
+    now rewrite <- !app_assoc.
+Qed.
+
+(* in-place (stale buffer dy1) and functional (fresh buffer dy2) conventions return the same array when the slices tile it *)
+Theorem conventions_agree us dy1 dy2 : consecutive 0 us -> total_len us = length dy1 -> length dy1 = length dy2 ->
+  snd (inplace_call dy1 us) = snd (functional_call dy2 us) /\ snd (inplace_call dy1 us) = concat (map snd us).
+Proof.
+  intros HC HT HL. unfold inplace_call, functional_call. cbn [snd].
+  rewrite (apply_updates_form us dy1 0 HC) by (cbn; lia). rewrite (apply_updates_form us dy2 0 HC) by (cbn; lia).
+  cbn [firstn app Nat.add]. rewrite !skipn_all2 by lia. now rewrite app_nil_r.
+Qed.
+
+(* ---------- ring buffer ---------- *)
+Lemma ring_push_form buf x : buf <> [] -> ring_push buf x = x :: removelast buf.
+Proof.
+  intros Hne. unfold ring_push, roll, zmodn, set_nth. cbn [firstn app].
+  set (n := length buf). assert (Hn : 0 < n) by (unfold n; destruct buf; [congruence|cbn; lia]).
+  destruct (Nat.eq_dec n 1) as [E|E].
+  - destruct buf as [|b [|b2 buf]]; cbn in n; try lia. reflexivity.
+  - assert (R : Z.to_nat (1 mod Z.of_nat n) = 1%nat) by (rewrite Z.mod_small by lia; reflexivity).
+    rewrite R. f_equal.
+    assert (LS : length (skipn (n - 1) buf) = 1%nat) by (rewrite skipn_length; fold n; lia).
+    destruct (skipn (n - 1) buf) as [|s [|s2 l]]; cbn in LS; try lia. cbn [app skipn].
+    rewrite removelast_firstn_len. fold n. f_equal. lia.
+Qed.
+
+Lemma ring_push_0 buf x : buf <> [] -> nth 0 (ring_push buf x) 0%Qc = x.
+Proof. intros H. now rewrite ring_push_form. Qed.
+
+Lemma nth_removelast : forall (l : list Qc) j, S j < length l -> nth j (removelast l) 0%Qc = nth j l 0%Qc.
+Proof.
+  induction l as [|a l IH]; intros j H; [cbn in H; lia|]. destruct l as [|b l]; [cbn in H; lia|].
+  destruct j as [|j]; [reflexivity|]. change (removelast (a :: b :: l)) with (a :: removelast (b :: l)).
+  cbn [nth]. apply IH. cbn in *. lia.
+Qed.
+
+Lemma ring_push_S buf x j : S j < length buf -> nth (S j) (ring_push buf x) 0%Qc = nth j buf 0%Qc.
+Proof.
+  intros H. rewrite ring_push_form by (intro E; subst; cbn in H; lia). cbn [nth]. now apply nth_removelast.
+Qed.
+
+Lemma ring_push_length buf x : buf <> [] -> length (ring_push buf x) = length buf.
+Proof.
+  intros H. rewrite ring_push_form by exact H. destruct buf as [|b buf]; [congruence|].
+  cbn [length]. rewrite removelast_firstn_len, firstn_length. cbn [length]. lia.
+Qed.
+
+(* the in-place ring buffer delivers the value pushed d calls earlier (any d below the buffer length, any number of calls) *)
+Theorem ring_inplace_is_delay d : forall xs buf, d < length buf -> ring_run_inplace d buf xs = ring_spec d buf xs.
+Proof.
+  induction xs as [|x xs IH]; intros buf Hd; [reflexivity|].
+  assert (Hne : buf <> []) by (intro E; subst; cbn in Hd; lia).
+  cbn [ring_run_inplace ring_step]. unfold ring_spec. cbn [length seq map]. f_equal.
+  - destruct d as [|d]; cbn [Nat.leb Nat.sub].
+    + now rewrite ring_push_0.
+    + rewrite ring_push_S by lia. now rewrite Nat.sub_0_r.
+  - rewrite IH by (rewrite ring_push_length; assumption). unfold ring_spec.
+    rewrite <- seq_shift, map_map. apply map_ext. intros k.
+    destruct (Nat.leb_spec d k) as [L|L].
+    + destruct (Nat.leb_spec d (S k)) as [L2|L2]; [|lia]. replace (S k - d) with (S (k - d)) by lia. reflexivity.
+    + destruct (Nat.leb_spec d (S k)) as [L2|L2].
+      * assert (d = S k) by lia. subst d. replace (S k - k - 1) with 0 by lia. rewrite Nat.sub_diag.
+        now rewrite ring_push_0.
+      * replace (d - k - 1) with (S (d - S k - 1)) by lia. rewrite ring_push_S by lia. reflexivity.
+Qed.
+
+(* a functional update that is not threaded back into the next call never accumulates: refuted by computation *)
+Lemma ring_unthreaded_differs :
+  ring_run_unthreaded 1 [Q2Qc 0; Q2Qc 0] [Q2Qc 1; Q2Qc 2; Q2Qc 3] <> ring_run_inplace 1 [Q2Qc 0; Q2Qc 0] [Q2Qc 1; Q2Qc 2; Q2Qc 3].
+Proof. vm_compute. intro H. discriminate H. Qed.
+
+(* ---------- populations ---------- *)
+Lemma pop_rhs_eq_spec s t y : pop_rhs s t y = pop_rhs_spec s t y.
+Proof.
+  unfold pop_rhs, pop_rhs_spec, pop_rhs_with. f_equal. apply map_ext. intros k. f_equal.
+  apply map_ext. intros c. unfold conn_input. destruct (ckind c); [reflexivity|]. apply coupling_input_eq_spec.
+Qed.
+
+Theorem pop_run_eq_spec b s dt steps ss y0 : (1 <= ss)%nat -> pop_run_impl b s dt steps ss y0 = pop_run_spec s dt steps ss y0.
+Proof.
+  intros Hs. unfold pop_run_spec.
+  assert (E : forall j, iter_from (euler_upd (pop_rhs s) dt) 0%Z j y0 = iter_from (euler_upd (pop_rhs_spec s) dt) 0%Z j y0).
+  { intros j. apply iter_from_ext. intros t y. unfold euler_upd. now rewrite pop_rhs_eq_spec. }
+  destruct b; unfold pop_run_impl; try (rewrite base_solve_spec by exact Hs); try rewrite jax_solve_spec;
+    unfold spec_rows; apply map_ext; intros k; apply E.
+Qed.
+
+(* ================================================================================================ sigmoid *)
+Open Scope Qc_scope.
+Section Sigmoid.
+  Variable E : Qc -> Qc.
+  Lemma q0_neq_1 : Q2Qc 0 <> 1. Proof. intro H. discriminate H. Qed.
+
+  (* 1/(1+exp(-x)) (base, Fortran helper, numpy stand-ins) = exp(x)/(1+exp(x)) (logistic form), given only exp(-x)*exp(x) = 1 *)
+  Lemma sigmoid_forms x : E (- x) * E x = 1 -> 1 + E x <> 0 -> 1 + E (- x) <> 0 ->
+    sigmoid_base E x = sigmoid_logistic E x.
+  Proof.
+    intros H Hb Ha. unfold sigmoid_base, sigmoid_logistic.
+    assert (Hnz : E x <> 0) by (intro Z; rewrite Z in H; apply q0_neq_1; rewrite <- H; ring).
+    assert (K : 1 + E x = E x * (1 + E (- x))) by (rewrite Qcmult_plus_distr_r, (Qcmult_comm (E x) (E (- x))), H; ring).
+    replace (1 / (1 + E (- x))) with (E x / (E x * (1 + E (- x)))) by (field; split; assumption).
+    now rewrite <- K.
+  Qed.
+
+  Lemma sigmoid_symmetry x : E (- x) * E x = 1 -> 1 + E x <> 0 -> 1 + E (- x) <> 0 ->
+    sigmoid_base E (- x) = 1 - sigmoid_base E x.
+  Proof.
+    intros H Hb Ha. unfold sigmoid_base. rewrite Qcopp_involutive.
+    assert (Hnz : E (- x) <> 0) by (intro Z; rewrite Z in H; apply q0_neq_1; rewrite <- H; ring).
+    assert (K : 1 + E (- x) = E (- x) * (1 + E x)) by (rewrite Qcmult_plus_distr_r, H; ring).
+    replace (1 - 1 / (1 + E (- x))) with (E (- x) / (1 + E (- x))) by (field; assumption).
+    rewrite K. field. split; assumption.
+  Qed.
+
+  Lemma sigmoid_at_0 : E 0 = 1 -> sigmoid_base E 0 = Q2Qc (1 # 2).
+  Proof.
+    intros H. unfold sigmoid_base. replace (- 0) with (Q2Qc 0) by ring. rewrite H. apply Qc_is_canon. reflexivity.
+  Qed.
+
+  Lemma sigmoid_fortran_elementwise xs : sigmoid_fortran_vec E xs = map (sigmoid_base E) xs.
+  Proof. reflexivity. Qed.
+End Sigmoid.
